@@ -56,6 +56,16 @@ CHECKS = {
          "Generated histories of demand writes, child state changes, self-disabling children and adjustment cycles; after every adjustment the statement's invariants are evaluated from the children; thorough tier enumerates all histories up to depth 4 over a small alphabet exhaustively.",
          "Harness keeps strong references to every child; a child counts as released once the pool wrote demand 0 to it; demands are ints/dyadics.",
          "3/C15"),
+ "C05": ("exploration",
+         "Hypothesis-generated YAML documents (own emitter) loaded with the real load(); differential against the same chain built with >>",
+         "Generated documents mixing !Tag (mapping/sequence/bare) and __type__ forms with nested lazy/eager tags, anchors/aliases, optional extra and logging sections and an injected constructor failure; returned pipeline shape, target identity links, construction log (once each, last to first, configured arguments) and equality with the Python >> chain; failures must surface and nothing before the failing position may be constructed.",
+         "Fixture classes are discovered through a scratch *.dist-info/entry_points.txt on sys.path (the real discovery path); emitter validated per case against a neutral PyYAML loader.",
+         "3/C05"),
+ "C18": ("exploration",
+         "Hypothesis-generated hostile YAML documents with side-effect canaries (import marker file, recording callables)",
+         "Documents valid except for one python/* tag (all PyYAML kinds, three spellings) or unregistered !tag at generated positions (sections, pipeline, nested in lazy/eager tag arguments, complex keys, logging section, behind aliases); load() must raise, the canary module must not be imported (sys.modules + marker file) and no canary callable may be called or instantiated.",
+         "Calls of real os/subprocess targets are not observed, only rejection; canaries make import/call/instantiation observable. Thorough tier adds an atheris byte-level fuzz target when atheris is installable.",
+         "3/C18"),
 }
 
 def main():
